@@ -4,6 +4,7 @@ import (
 	"fmt"
 	"go/token"
 	"go/types"
+	"sort"
 	"strings"
 
 	"golang.org/x/tools/go/ssa"
@@ -99,12 +100,21 @@ func runC18(c *Ctx) {
 
 	// ------------------------------------------------------------ Y3
 	c.Rule("C18.Y3", "ALWAYS-WITH", "in cancel, Revoke, expire and deliver every removal of a request from a pending pool is accompanied, on the same paths, by a loop over the request's Headers that pushes the outstanding ones back to the task queue")
-	c.Min(5)
+	c.Min(3)
 	frT := w.Named(dlPkg, "fetchRequest")
 	headersF := w.Field(dlPkg, "fetchRequest", "Headers")
-	for _, name := range []string{"cancel", "Revoke", "expire", "deliver"} {
-		fn := w.Fn(dlPkg, "queue", name)
-		c.sawFunc(fname(fn))
+	// every function of the package that removes a request from a pending pool (today: cancel, Revoke, expire, deliver)
+	var y3fns []*ssa.Function
+	for _, fn := range w.FuncsIn(dlPkg) {
+		if !strings.HasSuffix(w.fileOf(fn.Pos()), "_test.go") {
+			y3fns = append(y3fns, fn)
+		}
+	}
+	sort.Slice(y3fns, func(i, j int) bool { return fname(y3fns[i]) < fname(y3fns[j]) })
+	for _, fn := range y3fns {
+		if outerName(fname(fn)) == "(you/downloader.queue).DeliverHeaders" {
+			continue // skeleton header requests carry no Headers: a failed fill is re-queued by its From index (headerTaskQueue)
+		}
 		n := 0
 		for _, ci := range callInstrs(fn) {
 			bi, ok := ci.Common().Value.(*ssa.Builtin)
@@ -119,6 +129,7 @@ func runC18(c *Ctx) {
 				continue
 			}
 			c.sites++
+			c.sawFunc(fname(fn))
 			// a loop over Headers containing a Push, on the same paths as the delete
 			paired, partial := false, false
 			for _, b := range fn.Blocks {
